@@ -17,6 +17,7 @@ package originium
 import (
 	"errors"
 
+	"github.com/B1NARY-GR0UP/originium/pkg/verifhook"
 	"github.com/B1NARY-GR0UP/originium/types"
 	"github.com/B1NARY-GR0UP/originium/utils"
 )
@@ -65,10 +66,12 @@ func (t *Txn) Commit() error {
 
 	commitTs, hasConflict := orc.newCommitTs(t)
 	if hasConflict {
+		verifhook.Event("commit.conflict")
 		return ErrConflictTxn
 	}
 
 	// TODO: support txn crush recovery (txnEnt and txnFin)
+	verifhook.Point("commit.gotTs")
 
 	// all writes of the txn go to the wal with one write, a crash must not leave a part of them
 	entries := make([]types.Entry, 0, len(t.pendingWrites))
@@ -81,8 +84,10 @@ func (t *Txn) Commit() error {
 		})
 	}
 	t.db.rawset(entries...)
+	verifhook.Point("commit.written")
 
 	orc.doneCommit(commitTs)
+	verifhook.Event("commit.done")
 
 	return nil
 }
